@@ -266,13 +266,15 @@ def sc_tables(V, P, cfg):
     # every element's row lists 2^dim distinct nodes, every node is used, range
     K.holds("conn-rows-distinct", all(len(set(r.tolist())) == en for r in np.asarray(d.conn)), "conn-table")
     K.holds("conn-covers-all-nodes", sorted(set(np.asarray(d.conn).ravel().tolist())) == list(range(nnodes)), "conn-table")
+    # (all tables are requested first and compared afterwards: a result must not change when another one is computed)
+    dofconns = {ndof: d.get_dofconnectivity(ndof) for ndof in cfg["ndof"]}
     for ndof in cfg["ndof"]:
         ref = np.zeros((nel, en * ndof), dtype=int)
         for e in range(nel):
             for l in range(en):
                 for q in range(ndof):
                     ref[e, l * ndof + q] = conn_ref[e, l] * ndof + q
-        K.table("dofconn-ndof%d" % ndof, d.get_dofconnectivity(ndof), ref, "dofconn-table")
+        K.table("dofconn-ndof%d" % ndof, dofconns[ndof], ref, "dofconn-table")
     # index arrays of any rank ("can be integer or array"): 1-D lists of elements and meshgrid-style selections; the result
     # has the shape of the index arrays plus one axis for the element's nodes
     ar = [np.arange(c) for c in cnt]
